@@ -136,6 +136,7 @@ type replayCase struct {
 	Session *sessionID  `json:"session,omitempty"` // set for cases of the session family
 	History *historyID  `json:"history,omitempty"` // set for cases of the history family
 	Mime    *mimeID     `json:"mime,omitempty"`    // set for cases of the MIME spelling family
+	Spell   *spellID    `json:"spell,omitempty"`   // set for cases of the URL / cookie spelling family
 }
 
 // ---- scenario classes -------------------------------------------------------------------------------------
@@ -741,7 +742,7 @@ func main() {
 	nHeader := len(specs) - nBody
 	specs = append(specs, msggen.EdgeSpace(tier)...)
 
-	parts := map[string]bool{"single": true, "session": true, "history": true, "mime": true}
+	parts := map[string]bool{"single": true, "session": true, "history": true, "mime": true, "spelling": true}
 	if p := os.Getenv("VERIF_C16_PARTS"); p != "" { // development aid: run only some families
 		parts = map[string]bool{}
 		for _, x := range strings.Split(p, ",") {
@@ -779,7 +780,7 @@ func main() {
 	}
 	pending := make([][]pendingViolation, len(specs)) // reported in enumeration order (simplest message first)
 
-	if only != nil && (only.Session != nil || only.History != nil || only.Mime != nil) || !parts["single"] {
+	if only != nil && (only.Session != nil || only.History != nil || only.Mime != nil || only.Spell != nil) || !parts["single"] {
 		specs = nil
 	}
 	lib.Parallel(len(specs), func(i int) {
@@ -906,7 +907,7 @@ func main() {
 		}
 	}
 
-	if parts["session"] && (only == nil || only.Session != nil && only.History == nil && only.Mime == nil) {
+	if parts["session"] && (only == nil || only.Session != nil && only.History == nil && only.Mime == nil && only.Spell == nil) {
 		sc := runSessionFamily(rep, tier, only)
 		for k, v := range sc {
 			rep.Coverage[k] = v
@@ -941,6 +942,18 @@ func main() {
 		jsonBytes += mc["mime_json_bytes"]
 	}
 
+	if parts["spelling"] && (only == nil || only.Spell != nil) {
+		sc := runSpellingFamily(rep, tier, only)
+		for k, v := range sc {
+			rep.Coverage[k] = v
+		}
+		cases += sc["spelling_cases"]
+		transitions += sc["spelling_transitions"]
+		nontrivial += sc["spelling_cases_nondefault_url_or_repeated_name"]
+		fieldChecks += sc["spelling_cases"] - sc["spelling_violating_cases"]
+		jsonBytes += sc["spelling_json_bytes"]
+	}
+
 	rep.Coverage["states"] = cases
 	rep.Coverage["transitions"] = transitions
 	rep.Coverage["traces_validated_against_impl"] = cases
@@ -958,8 +971,8 @@ func main() {
 	rep.Coverage["violating_cases"] = violCases
 	rep.Coverage["distinct_outcomes"] = distinctOutcomes
 	rep.Coverage["exhaustive"] = only == nil
-	rep.Coverage["rule"] = "cases = every message of msggen.BodySpace ∪ HeaderSpace ∪ EdgeSpace x capture option {all, none, opt-in, opt-out} (every message) and x 10 further option settings (post-data and body options set independently, option histories where the last setting wins, empty / one-element / upper-case prefix lists) on the messages of 6 body-size classes; states = distinct (message, option) pairs; a case is non-trivial when the body is non-empty, the option captures it, and the model has to do more than copy bytes: the message is chunked, content-coded, not valid UTF-8, or a form/multipart body that is parsed into parameters. Session family: every sequence of K full exchanges (request + its own response) over a pool of 8 exchanges x response arrival order {sequential, after all requests in reverse order, after all requests in request order} x options {all, opt-in}, plus the length-1 baseline, logged through one logger; all entries are compared with the model of their own exchange only after the last exchange was logged, then the export handler's JSON and the reset handler's JSON (?return=true) are parsed back and compared entry by entry and the log must be empty; a session is non-trivial when a later captured response body fits into the memory of an earlier one. History family: every base message of a pool of 19 requests and 16 responses (framing x size x coding/type) x every sequence of up to L modifications that ran before the logger (body replaced with the length field updated / declared unknown, framing changed to chunked / to Content-Length, Host field rewritten, Content-Length / Transfer-Encoding / Host written into or deleted from the header map, martian's own body.Modifier) x options {all, none}; after the history the message is logged, then serialised with req.Write / res.Write and taken apart by msggen's parser: Host, Content-Length, Transfer-Encoding and the Trailer announcement of the HAR header list must be what the peer receives, everything else is compared with the reference model of the history; a history case is non-trivial when header map and fields disagree about one of the three names at logging time. MIME spelling family: every multipart/form-data request of the product part list (8) x preamble (6) x epilogue (5) x transport padding after delimiters (4) x boundary / Content-Type spelling (9) x part header spelling (8) (quick: the cases with at most two dimensions deviating from what mime/multipart.Writer writes - every value, every pair; thorough: the full product; bodies that coincide once) x framing {Content-Length, chunked} x options {all, none}; the bytes left in the request body after logging are parsed by an origin (net/http ParseMultipartForm) and must yield exactly the projection of the ground-truth part list (verified for every case, a disagreement aborts the run), the logged params must equal that list in order; a case is non-trivial when the option captures and at least one dimension deviates from the Writer spelling"
-	rep.Coverage["bounds"] = fmt.Sprintf("tier %s: body space = {request POST, response 200} x sizes %v (quick: the classes above 4097 with 3 of the 5 chunk lists) x {Content-Length, close (responses), chunked x chunk lists x trailers 0..2} x content codings %v x content types requests %v / responses %v (form sets: 1 pair, 4 pairs with a repeated name / reserved characters / empty value, non-UTF-8 and non-ASCII pairs; multipart sets: 1 field, field + text file, binary file + field; a pad parameter brings the body to the requested size); header space = requests {GET,POST,PUT} x HTTP/1.1,1.0 x query pool %q x Cookie pool %q x repeated/empty header pool, responses {200,201,301,302,404,204,304} x versions x Set-Cookie pool %q x header pool x Location pool %q; opt-in list %v, opt-out list %v; edge space = request methods {GET,DELETE,PATCH,OPTIONS,PUT} with a body, content types {absent, unparseable media type, form with parameters / in upper case / with a non-UTF-8 parameter name / that does not parse, multipart with quoted boundary / without boundary / with an empty and a typed part} x framings x {identity, gzip, zlib deflate, unknown coding}, non-UTF-8 bytes in a query value and in a header value, 206 x codings x framings, 304 and answers to HEAD {200,404,301} with Content-Length / chunked framing headers and no body, Location on {200,201,404}, query strings with '=' inside values and names / empty names / flags, requests whose parsed form has Transfer-Encoding chunked AND a content length, or a body of unknown length (neither); session length K = 3 (quick) / 4 (thorough); history length L <= 2 (quick) / 3 (thorough) over an alphabet of 12 (requests) / 10 (responses) modifications, HTTP/1.1 messages of methods/statuses that allow a body; MIME spelling family: part lists {field, field+text file, empty field+typed field, binary file+field, repeated name incl. a file, values with CR/LF/CRLF and delimiter look-alikes, 5000-byte field, empty file+field}, preambles {none, CRLF, text line, three lines, lines beginning with dashes, 5000 bytes}, epilogues {CRLF, nothing after the close delimiter, text, lines, text that looks like another part}, padding {none, SP after inner delimiters, SP after close delimiter, SP/TAB after all}, boundaries {token, quoted, leading dashes, RFC 2046 special characters, with a space, 70 characters, 1 character, attribute in mixed case after another parameter, media type in mixed case without space}, part headers {as Writer, lower-case names, unquoted parameters, extra headers, filename before name, folded, quoted-printable, empty part without body}, chunk lists {1+rest; thorough also 7-byte chunks}",
+	rep.Coverage["rule"] = "cases = every message of msggen.BodySpace ∪ HeaderSpace ∪ EdgeSpace x capture option {all, none, opt-in, opt-out} (every message) and x 10 further option settings (post-data and body options set independently, option histories where the last setting wins, empty / one-element / upper-case prefix lists) on the messages of 6 body-size classes; states = distinct (message, option) pairs; a case is non-trivial when the body is non-empty, the option captures it, and the model has to do more than copy bytes: the message is chunked, content-coded, not valid UTF-8, or a form/multipart body that is parsed into parameters. Session family: every sequence of K full exchanges (request + its own response) over a pool of 8 exchanges x response arrival order {sequential, after all requests in reverse order, after all requests in request order} x options {all, opt-in}, plus the length-1 baseline, logged through one logger; all entries are compared with the model of their own exchange only after the last exchange was logged, then the export handler's JSON and the reset handler's JSON (?return=true) are parsed back and compared entry by entry and the log must be empty; a session is non-trivial when a later captured response body fits into the memory of an earlier one. History family: every base message of a pool of 19 requests and 16 responses (framing x size x coding/type) x every sequence of up to L modifications that ran before the logger (body replaced with the length field updated / declared unknown, framing changed to chunked / to Content-Length, Host field rewritten, Content-Length / Transfer-Encoding / Host written into or deleted from the header map, martian's own body.Modifier) x options {all, none}; after the history the message is logged, then serialised with req.Write / res.Write and taken apart by msggen's parser: Host, Content-Length, Transfer-Encoding and the Trailer announcement of the HAR header list must be what the peer receives, everything else is compared with the reference model of the history; a history case is non-trivial when header map and fields disagree about one of the three names at logging time. MIME spelling family: every multipart/form-data request of the product part list (8) x preamble (6) x epilogue (5) x transport padding after delimiters (4) x boundary / Content-Type spelling (9) x part header spelling (8) (quick: the cases with at most two dimensions deviating from what mime/multipart.Writer writes - every value, every pair; thorough: the full product; bodies that coincide once) x framing {Content-Length, chunked} x options {all, none}; the bytes left in the request body after logging are parsed by an origin (net/http ParseMultipartForm) and must yield exactly the projection of the ground-truth part list (verified for every case, a disagreement aborts the run), the logged params must equal that list in order; a case is non-trivial when the option captures and at least one dimension deviates from the Writer spelling. URL / cookie spelling family: every bodiless GET of the product request-target form (absolute-form, origin-form on a plain connection, origin-form inside a MITM'd tunnel) x authority (11) x path spelling (17) x query spelling (11) minus the combinations that are not valid requests (origin-form with userinfo or an empty path); every request whose cookie pairs are a sequence of up to N letters of {sid=root, sid=app, theme=dark, SID=upper} x every split of the sequence into consecutive Cookie header lines; every 200 response whose Set-Cookie lines are a sequence of up to N letters of six cookies, five of them named sid with different value / Path / Domain / flags / Expires; the logged URL must be the request-target of the wire (absolute-form) or scheme://Host-header + request-target (origin-form) byte for byte, the cookie list one entry per pair / line in message order; a case is non-trivial when the URL deviates from the older families' spelling or a cookie name occurs more than once"
+	rep.Coverage["bounds"] = fmt.Sprintf("tier %s: body space = {request POST, response 200} x sizes %v (quick: the classes above 4097 with 3 of the 5 chunk lists) x {Content-Length, close (responses), chunked x chunk lists x trailers 0..2} x content codings %v x content types requests %v / responses %v (form sets: 1 pair, 4 pairs with a repeated name / reserved characters / empty value, non-UTF-8 and non-ASCII pairs; multipart sets: 1 field, field + text file, binary file + field; a pad parameter brings the body to the requested size); header space = requests {GET,POST,PUT} x HTTP/1.1,1.0 x query pool %q x Cookie pool %q x repeated/empty header pool, responses {200,201,301,302,404,204,304} x versions x Set-Cookie pool %q x header pool x Location pool %q; opt-in list %v, opt-out list %v; edge space = request methods {GET,DELETE,PATCH,OPTIONS,PUT} with a body, content types {absent, unparseable media type, form with parameters / in upper case / with a non-UTF-8 parameter name / that does not parse, multipart with quoted boundary / without boundary / with an empty and a typed part} x framings x {identity, gzip, zlib deflate, unknown coding}, non-UTF-8 bytes in a query value and in a header value, 206 x codings x framings, 304 and answers to HEAD {200,404,301} with Content-Length / chunked framing headers and no body, Location on {200,201,404}, query strings with '=' inside values and names / empty names / flags, requests whose parsed form has Transfer-Encoding chunked AND a content length, or a body of unknown length (neither); session length K = 3 (quick) / 4 (thorough); history length L <= 2 (quick) / 3 (thorough) over an alphabet of 12 (requests) / 10 (responses) modifications, HTTP/1.1 messages of methods/statuses that allow a body; MIME spelling family: part lists {field, field+text file, empty field+typed field, binary file+field, repeated name incl. a file, values with CR/LF/CRLF and delimiter look-alikes, 5000-byte field, empty file+field}, preambles {none, CRLF, text line, three lines, lines beginning with dashes, 5000 bytes}, epilogues {CRLF, nothing after the close delimiter, text, lines, text that looks like another part}, padding {none, SP after inner delimiters, SP after close delimiter, SP/TAB after all}, boundaries {token, quoted, leading dashes, RFC 2046 special characters, with a space, 70 characters, 1 character, attribute in mixed case after another parameter, media type in mixed case without space}, part headers {as Writer, lower-case names, unquoted parameters, extra headers, filename before name, folded, quoted-printable, empty part without body}, chunk lists {1+rest; thorough also 7-byte chunks}; URL / cookie spelling family: authorities {example.com, with port, mixed case, IPv4:port, [::1], [2001:db8::1]:8443, and with userinfo user@ / user:pass@ / user:@ / escaped @ : / in userinfo / userinfo + IPv6}, paths {/p/a, empty, /, %%2F %%3F %%23 %%25 in four combinations, lower-case hex, escaped unreserved, %%20 and escaped UTF-8, escaped non-UTF-8 octets, ;,= and all sub-delims : @ literally, //, ./.., leading //, trailing /}, queries {none, bare ?, a=1, empty values and flags, escaped = & / ? # %%, + and %%20, literal ? / : @, &&, =, trailing &}, Cookie sequences up to 4 pairs (thorough 6), Set-Cookie sequences up to 4 lines (thorough 5)",
 		tier, sizesFor(tier), msggen.Encodings, msggen.RequestCTs, msggen.ResponseCTs, msggen.QueryRaw, msggen.ReqCookieHeaders, msggen.ResCookieHeaders, msggen.Locations, optIn, optOut)
 	rep.Assumptions = []string{
 		"the reference values are the generator's own lists (header lines, query pairs, cookies, form pairs, multipart parts, payload before/after content coding); martian and net/http parsing results are never used as expectations",
@@ -977,6 +990,7 @@ func main() {
 		"history family: the message of a modified exchange is the one the peer receives (req.Write / res.Write, what martian does after the modifiers ran); a header list may also show the length field of a message that is chunked AND has a length, may show or omit a zero Content-Length (net/http decides by method, status and body reader whether a zero length is announced), and need not show the chunked coding net/http picks at send time for a body of unknown length; a value that is neither sent nor the value of the field is never accepted",
 		"history family: messages net/http refuses to serialise are counted (history_cases_unsendable) and not judged",
 		"MIME spelling family: the origin is net/http's ParseMultipartForm (standard library, not martian code) run on the bytes read from the request body after the logger ran; its result is used to validate the generator's ground truth for every case, the verdict is taken against the ground truth (which also fixes order across names and the content type of value parts, which the origin's maps do not keep); parts without a name, file names with directories and bodies without any part are not generated (origins skip / rewrite them, the expected parameter would be an opinion)",
+		"URL / cookie spelling family: only RFC 3986-valid spellings are generated; the URL of an origin-form request is scheme://Host-header-value + request-target, with the scheme and host filled in by the harness exactly as martian's proxy does before the modifiers run (URL.Scheme = http, or https inside a secure session; URL.Host = Host header when the target names none); userinfo is generated in its normalised spelling only (upper-case hex digits, only the necessary escapes): whether a logger may normalise equivalent spellings of userinfo is not judged; cookie values are plain tokens (no quoting), compared in message order",
 	}
 	rep.Finish()
 }
